@@ -98,4 +98,21 @@ theorem txdata_norm_id (n p g r a pl v' r' s' : Val) (h : WFV eth_tx_txdata (.li
 /-- `interface{}` trees without nil (trie node lists, `[]interface{}{addr, nonce}`): leaves are unchanged -/
 theorem any_bytes_norm_id (b : Bytes) : norm .any (.bytes b) = .bytes b := by simp [norm]
 
+theorem normL_raw_id : ∀ vs : List Val, normL .raw vs = vs := by
+  intro vs
+  induction vs with
+  | nil => simp [normL]
+  | cons v vs ih => cases v <;> simp [normL, norm, ih]
+
+/-- RawValue elements at every position of a list round-trip exactly: a `[]RawValue` whose elements
+    are each one well-formed item (the empty string `80` and the empty list `c0` included, anywhere)
+    decodes from its encoding to itself. -/
+theorem raw_slice_roundtrip (vs : List Val) (enc : Bytes) (hwf : WFV (.slice .raw) (.list vs))
+    (henc : encT (.slice .raw) (.list vs) = .ok enc) : decodeTy (.slice .raw) enc = .ok (.list vs) := by
+  have := typed_roundtrip (.slice .raw) (.list vs) enc hwf henc
+  simpa [norm, normL_raw_id] using this
+
+set_option maxRecDepth 16384 in
+example : decodeTy (.slice .raw) [0xc3, 0x80, 0xc0, 0x05] = .ok (.list [.bytes [0x80], .bytes [0xc0], .bytes [0x05]]) := by rfl
+
 end Rangers.Props.C08
